@@ -222,4 +222,242 @@ theorem rename_substitutes {α} (line new : List α) (spans : List (Nat × Nat))
   have := applyEdits_eq_subst line new spans 0 h
   simpa using this
 
+/-! ### Guards: what the theorems above assume, as one decidable predicate
+
+`refs_exact` speaks about `resolvedOf ws` and faithful trees.  What the real server holds can
+differ in two ways, each an open finding with a witness below:
+the resolved journal is not the workspace's (a stale or missing member tree), or a tree is not
+faithful to its text (a range the lexer/parser gives is not the lexeme).  -/
+
+def wfB (ws : Workspace) : Bool :=
+  ws.root.path != "" && decide ((ws.files.map (·.path)).Nodup)
+
+/-- The server's snapshot is the workspace: same primary, same member trees. -/
+def coherentB (ws : Workspace) (r : Resolved) : Bool :=
+  decide (r.primary = some ws.root.tree) &&
+  decide (r.files = ws.members.map fun f => (f.path, f.tree))
+
+/-- None of the guards of the known findings fires. -/
+def guardsOff (ws : Workspace) (r : Resolved) : Bool :=
+  wfB ws && coherentB ws r && ws.files.all fun f => faithfulB f.tree f.spans
+
+theorem faithful_of_faithfulB (j : Journal) (spans : List Span) (h : faithfulB j spans = true) :
+    faithful j spans := by
+  simp only [faithfulB, Bool.and_eq_true, List.all_eq_true] at h
+  obtain ⟨⟨h1, h2⟩, h3⟩ := h
+  refine ⟨h1, fun s => ⟨fun hs => ?_, fun hs => ?_⟩⟩
+  · have := h2 s hs
+    simp only [List.any_eq_true, decide_eq_true_eq] at this
+    obtain ⟨t, ht, rfl⟩ := this
+    exact ht
+  · have := h3 s hs
+    simp only [List.any_eq_true, decide_eq_true_eq] at this
+    obtain ⟨t, ht, rfl⟩ := this
+    exact ht
+
+/-- **refs_exact_partial.**  The same statement about whatever resolved journal the server holds,
+    under the decidable guard: the snapshot is coherent with the workspace and every tree is
+    faithful to its text. -/
+theorem refs_exact_partial (ws : Workspace) (r : Resolved) (hg : guardsOff ws r = true)
+    (kind : Kind) (name : Bytes) (hne : name ≠ []) (incl : Bool) (cur : Option Journal) (l : Loc) :
+    l ∈ findReferences kind name (some r) ws.root.path cur incl ↔
+      l ∈ occurrences ws.spanFiles kind name incl := by
+  simp only [guardsOff, wfB, coherentB, Bool.and_eq_true, bne_iff_ne, ne_eq, decide_eq_true_eq,
+    List.all_eq_true] at hg
+  obtain ⟨⟨⟨h1, h2⟩, h3, h4⟩, h5⟩ := hg
+  have hr : r = resolvedOf ws r.order := by
+    cases r
+    simp only [resolvedOf] at *
+    simp [h3, h4]
+  rw [hr]
+  exact refs_exact ws ⟨h1, h2⟩ (fun f hfm => faithful_of_faithfulB _ _ (h5 f hfm)) kind name hne incl cur _ l
+
+/-! ### Concrete workspaces (trees as the real parser produces them, positions checked against it) -/
+
+namespace Ex
+
+def P (l c : Nat) : Pos := ⟨l, c, 0⟩
+def R (sl sc el ec : Nat) : Rng := ⟨P sl sc, P el ec⟩
+def amt (sym : Bytes) (r : Rng) : Amount := ⟨⟨1, 0⟩, [49], ⟨sym, .right, r⟩, false, Rng.zero⟩
+def post (a : Account) (am : Option Amount) (cost : Option Cost := none) : Posting :=
+  ⟨.none, a, am, none, cost, [], [], .none, Rng.zero⟩
+def txn (dateR : Rng) (desc : Bytes) (ps : List Posting) (code : Bytes := []) : Transaction :=
+  ⟨⟨2024, 1, 1, dateR⟩, none, .none, code, desc, [], [], ps, [], [], Rng.zero⟩
+def sp (k : Kind) (name : Bytes) (line c0 c1 : Nat) (decl : Bool := false) : Span :=
+  ⟨k, name, ⟨⟨line, c0⟩, ⟨line, c1⟩⟩, decl⟩
+
+def ab : Bytes := [97, 58, 98]          -- a:b
+def usd : Bytes := [85, 83, 68]         -- USD
+def eur : Bytes := [69, 85, 82]         -- EUR
+def shop : Bytes := [83, 104, 111, 112] -- Shop
+
+/-- a.journal: `include b.journal` / `account a:b` / `2024-01-01 Shop` / `  a:b  1 USD`. -/
+def fileA : FileT :=
+  { path := "a.journal",
+    tree := { transactions := [txn (R 3 1 3 11) shop [post ⟨ab, R 4 3 4 6⟩ (some (amt usd (R 4 10 4 13)))]],
+              directives := [.account ⟨ab, R 2 9 0 0⟩ [] [] [] (R 2 1 3 1)],
+              comments := [], includes := [⟨[98], R 1 1 1 18⟩] },
+    spans := [sp .account ab 1 8 11 true, sp .payee shop 2 11 15, sp .account ab 3 2 5, sp .commodity usd 3 9 12] }
+
+/-- b.journal: `2024-01-02 Shop` / `  a:b  2 USD @ 3 EUR`. -/
+def fileB : FileT :=
+  { path := "b.journal",
+    tree := { transactions := [txn (R 1 1 1 11) shop
+                [post ⟨ab, R 2 3 2 6⟩ (some (amt usd (R 2 10 2 13))) (some ⟨amt eur (R 2 18 2 21), false, Rng.zero⟩)]],
+              directives := [], comments := [], includes := [] },
+    spans := [sp .payee shop 0 11 15, sp .account ab 1 2 5, sp .commodity usd 1 9 12, sp .commodity eur 1 17 20] }
+
+def ws2 : Workspace := ⟨fileA, [fileB]⟩
+
+/-- `D 1.00 USD` / `2024-01-01 Shop` / `  a:b  1 USD`: the `D` directive's symbol has no
+    position in the tree. -/
+def fileD : FileT :=
+  { path := "a.journal",
+    tree := { transactions := [txn (R 2 1 2 11) shop [post ⟨ab, R 3 3 3 6⟩ (some (amt usd (R 3 10 3 13)))]],
+              directives := [.defaultCommodity usd [49, 46, 48, 48, 32, 85, 83, 68] (R 1 1 1 11)],
+              comments := [], includes := [] },
+    spans := [sp .commodity usd 0 7 10, sp .payee shop 1 11 15, sp .account ab 2 2 5, sp .commodity usd 2 9 12] }
+
+def aGrin : Bytes := [97, 58, 0xF0, 0x9F, 0x98, 0x80]   -- a:😀
+/-- `2024-01-01 Shop` / `  a:😀  1 USD`: columns count runes, the client counts UTF-16 units. -/
+def fileNB : FileT :=
+  { path := "a.journal",
+    tree := { transactions := [txn (R 1 1 1 11) shop [post ⟨aGrin, R 2 3 2 6⟩ (some (amt usd (R 2 10 2 13)))]],
+              directives := [], comments := [], includes := [] },
+    spans := [sp .payee shop 0 11 15, sp .account aGrin 1 2 6, sp .commodity usd 1 10 13] }
+
+/-- `2024-01-01 (12) Shop` / `  a:b  1`: the payee's position is estimated from the date. -/
+def fileCode : FileT :=
+  { path := "a.journal",
+    tree := { transactions := [txn (R 1 1 1 11) shop [post ⟨ab, R 2 3 2 6⟩ none] [49, 50]],
+              directives := [], comments := [], includes := [] },
+    spans := [sp .payee shop 0 16 20, sp .account ab 1 2 5] }
+
+def aB : Bytes := [65, 32, 66]   -- A B
+/-- `commodity "A B"` / `2024-01-01 Shop` / `  a:b  1 "A B"`: the directive's name range is as
+    long as the symbol, the lexeme has two quotes more. -/
+def fileQuoted : FileT :=
+  { path := "a.journal",
+    tree := { transactions := [txn (R 2 1 2 11) shop [post ⟨ab, R 3 3 3 6⟩ (some (amt aB (R 3 10 3 15)))]],
+              directives := [.commodity ⟨aB, .left, R 1 11 0 0⟩ [] [] [] (R 1 1 2 1)],
+              comments := [], includes := [] },
+    spans := [sp .commodity aB 0 10 15 true, sp .payee shop 1 11 15, sp .account ab 2 2 5, sp .commodity aB 2 9 14] }
+
+def usdL : Bytes := [117, 115, 100]   -- usd
+/-- `2024-01-01 Shop` / `  a:b  1 usd  ; c`: a lower-case commodity is a free-text token that
+    ends at the `;`. -/
+def fileText : FileT :=
+  { path := "a.journal",
+    tree := { transactions := [txn (R 1 1 1 11) shop [post ⟨ab, R 2 3 2 6⟩ (some (amt usdL (R 2 10 2 15)))]],
+              directives := [], comments := [], includes := [] },
+    spans := [sp .payee shop 0 11 15, sp .account ab 1 2 5, sp .commodity usdL 1 9 12] }
+
+/-- b.journal as the client holds it after an unsaved edit: a line was inserted on top. -/
+def fileB' : FileT :=
+  { path := "b.journal",
+    tree := { transactions := [txn (R 2 1 2 11) shop
+                [post ⟨ab, R 3 3 3 6⟩ (some (amt usd (R 3 10 3 13))) (some ⟨amt eur (R 3 18 3 21), false, Rng.zero⟩)]],
+              directives := [], comments := [⟨[32, 120], [], R 1 1 0 0⟩], includes := [] },
+    spans := [sp .payee shop 1 11 15, sp .account ab 2 2 5, sp .commodity usd 2 9 12, sp .commodity eur 2 17 20] }
+
+end Ex
+open Ex
+
+instance (l : Loc) (xs : List Loc) : Decidable (l ∈ xs) :=
+  decidable_of_iff (xs.any fun x => decide (x = l) = true) (by simp)
+
+/-- The resolved journal of a single file. -/
+def single (f : FileT) : Resolved := ⟨some f.tree, [], []⟩
+
+/-! #### The defect repaired by fix-references-rename.diff
+
+Before the repair `allJournalsWithPaths` was given the path of the *requesting* document as the
+label of the primary journal.  With a workspace root the primary journal is the root journal:
+from an included file the root's occurrences were reported under the included file's name and
+the included file's own tree was overwritten. -/
+
+theorem pinned_primary_label_counterexample :
+    (∃ l, l ∈ findReferences .account ab (some (resolvedOf ws2 [])) "b.journal" none true ∧
+          l ∉ occurrences ws2.spanFiles .account ab true) ∧
+    (∃ l, l ∈ occurrences ws2.spanFiles .account ab true ∧
+          l ∉ findReferences .account ab (some (resolvedOf ws2 [])) "b.journal" none true) :=
+  ⟨⟨⟨"b.journal", ⟨⟨1, 8⟩, ⟨1, 11⟩⟩⟩, by decide, by decide⟩,
+   ⟨⟨"a.journal", ⟨⟨1, 8⟩, ⟨1, 11⟩⟩⟩, by decide, by decide⟩⟩
+
+/-! #### Known finding `unranged-commodity-site` -/
+
+theorem unranged_commodity_site_counterexample :
+    faithfulB fileD.tree fileD.spans = false ∧ unrangedSites fileD.tree usd = 1 ∧
+    ∃ l, l ∈ occurrences [(fileD.path, fileD.spans)] .commodity usd true ∧
+         l ∉ findReferences .commodity usd (some (single fileD)) fileD.path none true :=
+  ⟨by decide, by decide, ⟨"a.journal", ⟨⟨0, 7⟩, ⟨0, 10⟩⟩⟩, by decide, by decide⟩
+
+/-! #### Known finding `utf16-columns` -/
+
+theorem utf16_columns_counterexample :
+    faithfulB fileNB.tree fileNB.spans = false ∧
+    ∃ l, l ∈ findReferences .commodity usd (some (single fileNB)) fileNB.path none true ∧
+         l ∉ occurrences [(fileNB.path, fileNB.spans)] .commodity usd true :=
+  ⟨by decide, ⟨"a.journal", ⟨⟨1, 9⟩, ⟨1, 12⟩⟩⟩, by decide, by decide⟩
+
+/-! #### Known finding `payee-range-estimate` -/
+
+theorem payee_range_estimate_counterexample :
+    faithfulB fileCode.tree fileCode.spans = false ∧
+    ∃ l, l ∈ findReferences .payee shop (some (single fileCode)) fileCode.path none true ∧
+         l ∉ occurrences [(fileCode.path, fileCode.spans)] .payee shop true :=
+  ⟨by decide, ⟨"a.journal", ⟨⟨0, 11⟩, ⟨0, 15⟩⟩⟩, by decide, by decide⟩
+
+/-! #### Known finding `quoted-commodity-directive` -/
+
+theorem quoted_commodity_directive_counterexample :
+    faithfulB fileQuoted.tree fileQuoted.spans = false ∧
+    ∃ l, l ∈ findReferences .commodity aB (some (single fileQuoted)) fileQuoted.path none true ∧
+         l ∉ occurrences [(fileQuoted.path, fileQuoted.spans)] .commodity aB true :=
+  ⟨by decide, ⟨"a.journal", ⟨⟨0, 10⟩, ⟨0, 13⟩⟩⟩, by decide, by decide⟩
+
+/-! #### Known finding `text-commodity-trailing-blank` -/
+
+theorem text_commodity_trailing_blank_counterexample :
+    faithfulB fileText.tree fileText.spans = false ∧
+    ∃ l, l ∈ findReferences .commodity usdL (some (single fileText)) fileText.path none true ∧
+         l ∉ occurrences [(fileText.path, fileText.spans)] .commodity usdL true :=
+  ⟨by decide, ⟨"a.journal", ⟨⟨1, 9⟩, ⟨1, 14⟩⟩⟩, by decide, by decide⟩
+
+/-! #### Known findings about the snapshot the server holds
+
+The workspace `⟨fileA, [fileB']⟩` is what the client sees: b.journal is open with an unsaved
+edit.  Without a workspace root the resolved journal of a.journal was loaded from disk
+(`unsaved-include-not-seen`); with a workspace root the same happens when b.journal was opened
+with a text that differs from disk and not changed since (`didopen-stale-workspace`): in both
+cases the server holds `fileB`'s tree.  After a second load with a warm cache the loader keeps
+only the directly included file and drops its subtree (`loader-cache-drops-subtree`): the member
+is missing altogether. -/
+
+def wsEdited : Workspace := ⟨fileA, [fileB']⟩
+
+theorem unsaved_include_not_seen_counterexample :
+    coherentB wsEdited (resolvedOf ws2 []) = false ∧
+    ∃ l, l ∈ findReferences .commodity usd (some (resolvedOf ws2 [])) "a.journal" none true ∧
+         l ∉ occurrences wsEdited.spanFiles .commodity usd true :=
+  ⟨by decide, ⟨"b.journal", ⟨⟨1, 9⟩, ⟨1, 12⟩⟩⟩, by decide, by decide⟩
+
+theorem didopen_stale_workspace_counterexample :
+    coherentB wsEdited (resolvedOf ws2 ["b.journal"]) = false ∧
+    ∃ l, l ∈ occurrences wsEdited.spanFiles .commodity eur true ∧
+         l ∉ findReferences .commodity eur (some (resolvedOf ws2 ["b.journal"])) "a.journal" none true :=
+  ⟨by decide, ⟨"b.journal", ⟨⟨2, 17⟩, ⟨2, 20⟩⟩⟩, by decide, by decide⟩
+
+theorem loader_cache_drops_subtree_counterexample :
+    coherentB ws2 (single fileA) = false ∧
+    ∃ l, l ∈ occurrences ws2.spanFiles .account ab true ∧
+         l ∉ findReferences .account ab (some (single fileA)) "a.journal" none true :=
+  ⟨by decide, ⟨"b.journal", ⟨⟨1, 2⟩, ⟨1, 5⟩⟩⟩, by decide, by decide⟩
+
+/-- Non-vacuity: a two-file workspace with shared symbols satisfies every hypothesis. -/
+example : guardsOff ws2 (resolvedOf ws2 ["b.journal"]) = true := by decide
+example : findReferences .account ab (some (resolvedOf ws2 [])) "a.journal" none true =
+    [⟨"a.journal", ⟨⟨1, 8⟩, ⟨1, 11⟩⟩⟩, ⟨"a.journal", ⟨⟨3, 2⟩, ⟨3, 5⟩⟩⟩, ⟨"b.journal", ⟨⟨1, 2⟩, ⟨1, 5⟩⟩⟩] := by decide
+example : (references (requestFrom ws2 fileB [] ⟨1, 18⟩) false) = [⟨"b.journal", ⟨⟨1, 17⟩, ⟨1, 20⟩⟩⟩] := by decide
+
 end HL.Props.C09
